@@ -265,6 +265,18 @@ class Gen:
         sub.body = ("seq", body)
         return sub
 
+    def make_forwarder(self, outer, inner):
+        """outer(x by reference) forwards its reference to inner(y by reference), which updates the caller's variable."""
+        r = self.r
+        k = r.randrange(1, 4)
+        self.subs[inner] = Sub(inner, [("ref", f"{inner}_y", "u"), ("v", f"{inner}_d", "u")], "none", [],
+                               ("store", f"{inner}_y", ("nary", "add", [("load", f"{inner}_y"), ("load", f"{inner}_d")])))
+        self.subs[outer] = Sub(outer, [("ref", f"{outer}_x", "u")], r.choice(["none", "u"]), [(f"{outer}_l", "u")], ("seq", []))
+        body = [("store", f"{outer}_l", ("int", 3))] + [("calls", inner, [("ref", f"{outer}_x"), ("int", j + 1)]) for j in range(k)]
+        if self.subs[outer].ret == "u":
+            body.append(("return", ("nary", "add", [("load", f"{outer}_x"), ("load", f"{outer}_l")])))
+        self.subs[outer].body = ("seq", body)
+
     def make_mutual(self, a, b):
         """a (returns none, locals) calls b (returns uint64) calls a: different arities and return types."""
         r = self.r
@@ -312,6 +324,8 @@ class Gen:
             if self.f["recursion"] and r.random() < 0.3:
                 self.make_mutual("ma", "mb")
                 callable_ += ["ma", "mb"]
+            if self.f["refparams"] and self.version >= 5 and r.random() < 0.35:
+                self.make_forwarder("fwd", "bump")
         mvars = [(f"m{j}", "u" if (not self.f["bytes"] or r.random() < 0.7) else "b") for j in range(r.randrange(0, 3))]
         cnt = [("mc0", "u"), ("mc1", "u")]
         all_g = self.gvars + [(n, t, None) for n, t in mvars + cnt]
@@ -328,6 +342,11 @@ class Gen:
                 body[-1] = ("log", ("un", "itob", ("call", "rec", args)))
         if "ma" in self.subs:
             body.append(("calls", "ma", [("int", r.randrange(0, 4))]))
+        if "fwd" in self.subs:
+            uvars = [n for n, t, _ in all_g if t == "u" and not n.startswith("mc")]
+            if uvars:
+                x = r.choice(uvars)
+                body.append(("calls", "fwd", [("ref", x)]) if self.subs["fwd"].ret == "none" else ("pop", ("call", "fwd", [("ref", x)])))
         if self.f["log"]:
             for n, t, _ in all_g[:4]:
                 body.append(("log", ("load", n) if t == "b" else ("un", "itob", ("load", n))))
